@@ -35,7 +35,9 @@ func Patience() time.Duration {
 
 // Expired notes a wait that ran out (what = what was waited for).
 func Expired(what string) {
-	if n := expiries.Add(1); n > MaxExpiries {
+	n := expiries.Add(1)
+	fmt.Fprintf(os.Stderr, "patience: wait %d ran out: %s\n", n, what)
+	if n > MaxExpiries {
 		panic(fmt.Sprintf("%d waits of the runner ran out (20 s, 5 s, 1.25 s, then 300 ms each), the last one: %s - the implementation keeps the harness waiting (a call that neither returns nor makes progress, a lock that is not given back)", n, what))
 	}
 }
